@@ -1,7 +1,7 @@
 //! C07 — DTLS record / handshake byte decoders (src/transports/dtls/{record,handshake}.rs).
-//! The record walk and handshake-message walk replicate the 6-line loops of `handle_incoming_packet` /
-//! `process_handshake_payload` around the REAL decode functions (the loops themselves are private and async);
-//! the extension walks are private inline code and are exercised by the live-endpoint exploration only.
+//! The record loop of `handle_incoming_packet` and the message loop of `process_handshake_payload` are compared through
+//! the REAL run loop (stream `dtlsctx` in dtlslive.rs, hook-published context); the extension walks are private inline
+//! code and are exercised by the live-endpoint exploration only.
 use super::Target;
 use crate::Rng;
 use bytes::{Bytes, BytesMut};
@@ -22,39 +22,18 @@ fn hs_digest(m: &HandshakeMessage) -> Vec<u64> {
 
 fn call_record(b: &[u8]) -> String {
     let mut buf = Bytes::copy_from_slice(b);
-    match DtlsRecord::decode(&mut buf) { Ok(None) => "ok ".into(), Ok(Some(r)) => format!("ok {}", nats(&rec_digest(&r))), Err(e) => et(&e) }
+    super::start_alloc(); let r = DtlsRecord::decode(&mut buf); super::mark_alloc();
+    match r { Ok(None) => "ok ".into(), Ok(Some(r)) => format!("ok {}", nats(&rec_digest(&r))), Err(e) => et(&e) }
 }
 fn call_hs(b: &[u8]) -> String {
     let mut buf = Bytes::copy_from_slice(b);
-    match HandshakeMessage::decode(&mut buf) { Ok(None) => "ok ".into(), Ok(Some(r)) => format!("ok {}", nats(&hs_digest(&r))), Err(e) => et(&e) }
-}
-fn call_record_walk(b: &[u8]) -> String {
-    let mut data = Bytes::copy_from_slice(b);
-    let mut out = vec![];
-    while !data.is_empty() {
-        match DtlsRecord::decode(&mut data) {
-            Ok(None) => break,
-            Ok(Some(r)) => out.push(nats(&rec_digest(&r))),
-            Err(_) => data = Bytes::new(),
-        }
-    }
-    format!("ok {};{}", out.len(), out.join(";"))
-}
-fn call_hs_walk(b: &[u8]) -> String {
-    let mut body = Bytes::copy_from_slice(b);
-    let mut out = vec![];
-    while !body.is_empty() {
-        match HandshakeMessage::decode(&mut body) {
-            Ok(None) => break,
-            Ok(Some(m)) => out.push(nats(&hs_digest(&m))),
-            Err(_) => break,
-        }
-    }
-    format!("ok {};{}", out.len(), out.join(";"))
+    super::start_alloc(); let r = HandshakeMessage::decode(&mut buf); super::mark_alloc();
+    match r { Ok(None) => "ok ".into(), Ok(Some(r)) => format!("ok {}", nats(&hs_digest(&r))), Err(e) => et(&e) }
 }
 fn call_client_hello(b: &[u8]) -> String {
     let mut buf = Bytes::copy_from_slice(b);
-    match ClientHello::decode(&mut buf) {
+    super::start_alloc(); let r = ClientHello::decode(&mut buf); super::mark_alloc();
+    match r {
         Ok(h) => {
             let mut re = BytesMut::new(); h.encode(&mut re);          // re-serialising the parsed hello must be total
             format!("ok {}", nats(&[h.version.major as u64, h.version.minor as u64, h.random.gmt_unix_time as u64, fold(&h.random.random_bytes),
@@ -66,7 +45,8 @@ fn call_client_hello(b: &[u8]) -> String {
 }
 fn call_server_hello(b: &[u8]) -> String {
     let mut buf = Bytes::copy_from_slice(b);
-    match ServerHello::decode(&mut buf) {
+    super::start_alloc(); let r = ServerHello::decode(&mut buf); super::mark_alloc();
+    match r {
         Ok(h) => { let mut re = BytesMut::new(); h.encode(&mut re);
             format!("ok {}", nats(&[h.version.major as u64, h.version.minor as u64, h.random.gmt_unix_time as u64, fold(&h.random.random_bytes),
             h.session_id.len() as u64, fold(&h.session_id), h.cipher_suite as u64, h.compression_method as u64, h.extensions.len() as u64, fold(&h.extensions)])) }
@@ -75,29 +55,34 @@ fn call_server_hello(b: &[u8]) -> String {
 }
 fn call_hvr(b: &[u8]) -> String {
     let mut buf = Bytes::copy_from_slice(b);
-    match HelloVerifyRequest::decode(&mut buf) {
+    super::start_alloc(); let r = HelloVerifyRequest::decode(&mut buf); super::mark_alloc();
+    match r {
         Ok(h) => format!("ok {}", nats(&[h.version.major as u64, h.version.minor as u64, h.cookie.len() as u64, fold(&h.cookie)])), Err(e) => et(&e) }
 }
 fn call_ske(b: &[u8]) -> String {
     let mut buf = Bytes::copy_from_slice(b);
-    match ServerKeyExchange::decode(&mut buf) {
+    super::start_alloc(); let r = ServerKeyExchange::decode(&mut buf); super::mark_alloc();
+    match r {
         Ok(h) => format!("ok {}", nats(&[h.curve_type as u64, h.named_curve as u64, h.public_key.len() as u64, fold(&h.public_key), h.signature.len() as u64, fold(&h.signature)])),
         Err(e) => et(&e) }
 }
 fn call_cert(b: &[u8]) -> String {
     let mut buf = Bytes::copy_from_slice(b);
-    match CertificateMessage::decode(&mut buf) {
+    super::start_alloc(); let r = CertificateMessage::decode(&mut buf); super::mark_alloc();
+    match r {
         Ok(h) => format!("ok {}", nats(&[h.certificates.len() as u64, h.certificates.iter().map(|c| c.len() as u64).sum(),
             h.certificates.iter().fold(7u64, |a, c| (a * 31 + fold(c)) % 4294967296)])),
         Err(e) => et(&e) }
 }
 fn call_cke(b: &[u8]) -> String {
     let mut buf = Bytes::copy_from_slice(b);
-    match ClientKeyExchange::decode(&mut buf) { Ok(h) => format!("ok {}", nats(&[h.public_key.len() as u64, fold(&h.public_key)])), Err(e) => et(&e) }
+    super::start_alloc(); let r = ClientKeyExchange::decode(&mut buf); super::mark_alloc();
+    match r { Ok(h) => format!("ok {}", nats(&[h.public_key.len() as u64, fold(&h.public_key)])), Err(e) => et(&e) }
 }
 fn call_finished(b: &[u8]) -> String {
     let mut buf = Bytes::copy_from_slice(b);
-    match Finished::decode(&mut buf) { Ok(h) => format!("ok {}", nats(&[h.verify_data.len() as u64, fold(&h.verify_data)])), Err(e) => et(&e) }
+    super::start_alloc(); let r = Finished::decode(&mut buf); super::mark_alloc();
+    match r { Ok(h) => format!("ok {}", nats(&[h.verify_data.len() as u64, fold(&h.verify_data)])), Err(e) => et(&e) }
 }
 
 // ---- generators from the repo's own encoders
@@ -220,16 +205,14 @@ pub fn gen_records(rng: &mut Rng) -> Vec<u8> {
 
 pub fn targets() -> Vec<Target> {
     vec![
-        Target { stream: "dtlsrec", entry: "DtlsRecord::decode", call: call_record, valid: gen_records, alloc: Some((1, 64)), weight: 2 },
-        Target { stream: "dtlshs", entry: "HandshakeMessage::decode", call: call_hs, valid: gen_handshake_msgs, alloc: Some((1, 64)), weight: 2 },
-        Target { stream: "dtlsrecwalk", entry: "DtlsRecord::decode(walk)", call: call_record_walk, valid: gen_records, alloc: Some((8, 256)), weight: 1 },
-        Target { stream: "dtlshswalk", entry: "HandshakeMessage::decode(walk)", call: call_hs_walk, valid: gen_handshake_msgs, alloc: Some((8, 256)), weight: 1 },
-        Target { stream: "chello", entry: "ClientHello::decode", call: call_client_hello, valid: gen_client_hello, alloc: Some((4, 256)), weight: 3 },
-        Target { stream: "shello", entry: "ServerHello::decode", call: call_server_hello, valid: gen_server_hello, alloc: Some((4, 256)), weight: 2 },
-        Target { stream: "hvr", entry: "HelloVerifyRequest::decode", call: call_hvr, valid: gen_hvr, alloc: Some((2, 64)), weight: 1 },
-        Target { stream: "ske", entry: "ServerKeyExchange::decode", call: call_ske, valid: gen_ske, alloc: Some((2, 64)), weight: 1 },
-        Target { stream: "cert", entry: "CertificateMessage::decode", call: call_cert, valid: gen_cert, alloc: Some((9, 64)), weight: 2 },
-        Target { stream: "cke", entry: "ClientKeyExchange::decode", call: call_cke, valid: gen_cke, alloc: Some((2, 64)), weight: 1 },
-        Target { stream: "finished", entry: "Finished::decode", call: call_finished, valid: gen_finished, alloc: Some((2, 64)), weight: 1 },
+        Target { stream: "dtlsrec", entry: "DtlsRecord::decode", call: call_record, valid: gen_records, alloc: Some((0, 0)), weight: 2 },
+        Target { stream: "dtlshs", entry: "HandshakeMessage::decode", call: call_hs, valid: gen_handshake_msgs, alloc: Some((0, 0)), weight: 2 },
+        Target { stream: "chello", entry: "ClientHello::decode", call: call_client_hello, valid: gen_client_hello, alloc: Some((1, 0)), weight: 3 },
+        Target { stream: "shello", entry: "ServerHello::decode", call: call_server_hello, valid: gen_server_hello, alloc: Some((1, 0)), weight: 2 },
+        Target { stream: "hvr", entry: "HelloVerifyRequest::decode", call: call_hvr, valid: gen_hvr, alloc: Some((1, 0)), weight: 1 },
+        Target { stream: "ske", entry: "ServerKeyExchange::decode", call: call_ske, valid: gen_ske, alloc: Some((1, 0)), weight: 1 },
+        Target { stream: "cert", entry: "CertificateMessage::decode", call: call_cert, valid: gen_cert, alloc: Some((8, 0)), weight: 2 },
+        Target { stream: "cke", entry: "ClientKeyExchange::decode", call: call_cke, valid: gen_cke, alloc: Some((1, 0)), weight: 1 },
+        Target { stream: "finished", entry: "Finished::decode", call: call_finished, valid: gen_finished, alloc: Some((1, 0)), weight: 1 },
     ]
 }
